@@ -95,3 +95,67 @@ func VerifC11Warm() {
 		rt.Assert(allowed == g.thr, "below the warning level the full threshold is available")
 	}
 }
+
+// VerifC11WarmIdle: after an idle period long enough to refill the bucket from any level, the
+// bucket is full and the rate restarts at about threshold/coldFactor.
+func VerifC11WarmIdle() {
+	g := verifWarmGrid[rt.Param("GRID")]
+	r := &Rule{Resource: "W", TokenCalculateStrategy: WarmUp, ControlBehavior: Reject, Threshold: g.thr, WarmUpPeriodSec: g.period, WarmUpColdFactor: g.cold}
+	st := &verifQpsStat{}
+	tsc := &TrafficShapingController{rule: r, boundStat: standaloneStatistic{readOnlyMetric: st}}
+	c := NewWarmUpTrafficShapingCalculator(tsc, r).(*WarmUpTrafficShapingCalculator)
+	cold := g.cold
+	if cold <= 1 {
+		cold = 3
+	}
+	if c.maxToken <= c.warningToken {
+		return // collapsed token range (D12 region): no cold phase
+	}
+	stored := rt.I64n("stored", 40)
+	rt.Assume(stored <= int64(c.maxToken))
+	c.storedTokens = stored
+	last := (2000000000 + rt.U64n("lastSec", 8)) * 1000
+	c.lastFilledTime = last
+	idleMs := uint64((float64(c.maxToken)+2)*1000.0/g.thr) + 1001 // concrete: time to refill an empty bucket, rounded up, plus the second the calculator truncates
+	now := last + idleMs + rt.U64n("extraMs", 16)
+	rt.SetClockMs(now)
+	st.prev = 0
+	allowed := c.CalculateAllowedTokens(1, 0)
+	rt.Reach("c11.idle")
+	// D30: with a threshold below the cold factor the low-traffic test (passQps < uint32(threshold)/coldFactor) is never true
+	d30 := uint32(g.thr)/cold == 0 && stored >= int64(c.warningToken)
+	rt.AssertExcept(c.storedTokens == int64(c.maxToken), "after an idle period long enough to refill it the bucket is full (cold start)", "D30", d30)
+	rt.AssertExcept(allowed <= g.thr/float64(cold)*1.01+1e-9, "after idling the rate starts no higher than about threshold/coldFactor", "D30", d30)
+}
+
+// VerifC11WarmDrain: sustained demand (the previous window admitted at least the whole requests of
+// the cold rate, and at least one) drains the bucket above the warning line, so the rate climbs to
+// the full threshold within about (maxToken-warningToken)/coldRate seconds.
+func VerifC11WarmDrain() {
+	g := verifWarmGrid[rt.Param("GRID")]
+	r := &Rule{Resource: "W", TokenCalculateStrategy: WarmUp, ControlBehavior: Reject, Threshold: g.thr, WarmUpPeriodSec: g.period, WarmUpColdFactor: g.cold}
+	st := &verifQpsStat{}
+	tsc := &TrafficShapingController{rule: r, boundStat: standaloneStatistic{readOnlyMetric: st}}
+	c := NewWarmUpTrafficShapingCalculator(tsc, r).(*WarmUpTrafficShapingCalculator)
+	cold := g.cold
+	if cold <= 1 {
+		cold = 3
+	}
+	if c.maxToken <= c.warningToken {
+		return
+	}
+	stored := rt.I64n("stored", 40)
+	rt.Assume(stored > int64(c.warningToken) && stored <= int64(c.maxToken))
+	c.storedTokens = stored
+	last := (2000000000 + rt.U64n("lastSec", 8)) * 1000
+	c.lastFilledTime = last
+	now := last + 1000 + rt.U64n("extraMs", 12) // the next second (or a few later)
+	rt.SetClockMs(now)
+	prev := rt.U32n("prevQps", 16)
+	coldRate := uint32(g.thr) / cold
+	rt.Assume(prev >= coldRate && prev >= 1)
+	st.prev = float64(prev)
+	c.CalculateAllowedTokens(1, 0)
+	rt.Reach("c11.drain")
+	rt.Assert(c.storedTokens < stored, "under sustained demand the bucket above the warning line drains (the rate climbs towards the threshold)")
+}
